@@ -46,6 +46,9 @@ public:
     enum Mode { SCRIPT, RANDOM, FALLBACK };
     Mode mode = SCRIPT;
     bool yield_after_create() override { return mode == RANDOM; }
+    int fail_create_nth = 0;   // > 0: the n-th pthread_create of the execution fails with EAGAIN
+    int creates_seen = 0;
+    bool fail_create() override { return ++creates_seen == fail_create_nth; }
     std::vector<ScriptStep> script;
     size_t pos = 0;       // index of the step in progress
     bool in_step = false;
